@@ -294,6 +294,7 @@ var segPool = []string{
 	"Salary", "Bonus", "Interest", "Dividends", "Food", "Rent", "Tax", "Travel", "Fees",
 	"Ärzte", "現金", "Öl", "A1", "B", "C2", "Zürich", "X9", "Opening", "Retained", "Misc",
 	"Kids", "Auto", "P2P", "ÉtéÜber", "Я", "a", "z",
+	"FixedAssets", "CurrentLiabilities", "Assets", "Income", "EquityFunds", "OtherExpenses",
 	"Donaudampfschifffahrtsgesellschaftskapitänsmützenabzeichen2020", "Überstundenzuschlagsrückstellungskontokorrentverrechnung",
 }
 
